@@ -71,7 +71,7 @@ pub fn lang_spec(id: &str) -> Option<&'static LangSpec> {
 }
 
 const IDENTS: &[&str] = &["foo", "bar_baz", "getUserName", "x1", "zqIdent", "HTTPServer", "my_var2", "été"];
-const STRS: &[&str] = &["hello wrold", "", "a \\\" b", "😀 ünï", "https://example.com", "%d items", "teh", "zq zq"];
+const STRS: &[&str] = &["hello wrold", "", "a \\\" b", "😀 ünï", "https://example.com", "%d items", "teh", "zq zq", "señor", "⌘", "中文 teh"];
 
 /// One segment of a loosely generated source file.
 fn segment(spec: &'static LangSpec) -> BoxedStrategy<String> {
@@ -142,6 +142,27 @@ fn segment(spec: &'static LangSpec) -> BoxedStrategy<String> {
         ));
     }
     opts.push((1, Just(String::new()).boxed()));
+    // language-specific directives and markers inside comments
+    let specials: &'static [&'static str] = match spec.id {
+        "go" => &["//go:build linux", "//go:generate stringer -type=Pill", "//go:build linux\n//", "//go:embed teh.txt\n// Teh real comment.", "//go:", "// +build ignore", "//nolint:errcheck // teh reason"],
+        "rust" => &["//! # Titel", "/// ```\n/// let teh = 1;\n/// ```", "// harper:ignore teh", "//", "///", "/**/", "/***/", "// spellchecker:ignore wrold"],
+        "python" => &["#!/usr/bin/env python", "# -*- coding: utf-8 -*-", "# type: ignore", "# noqa: E501 teh", "#", "\"\"\"Teh docstring.\"\"\""],
+        "shellscript" => &["#!/bin/bash", "#!/usr/bin/env teh", "#", "# shellcheck disable=SC2086", ": <<'EOF'\nteh heredoc\nEOF"],
+        "lua" => &["--[[ ", "--[[", "--[==[ teh ]==]", "---@param teh string", "--"],
+        "ruby" => &["=begin\nTeh block comment.\n=end", "# frozen_string_literal: true", "#!/usr/bin/env ruby", "# :nodoc:"],
+        "haskell" => &["{-# LANGUAGE OverloadedStrings #-}", "-- | Teh haddock", "-- ^ teh", "{- | teh -}", "{-", "--"],
+        "c" | "cpp" => &["/* [ */", "#include <teh.h>", "#define TEH 1 // teh", "/**< teh */", "//!< teh", "/*", "//\\\nteh continued"],
+        "java" | "scala" => &["/** {@link Teh} */", "/** @param teh the teh */", "/** {@code teh */", "/** <p>Teh.</p> */", "/**", "/** {@link", "/** {@ */"],
+        "javascript" | "typescript" | "javascriptreact" | "typescriptreact" => &["/** {@link Teh} */", "/** @param {string} teh - The teh. */", "// @ts-ignore teh", "/** {@link", "/* eslint-disable */", "// - [ ", "/** @returns {Promise<Teh>} */"],
+        "php" => &["<?php // teh", "<?php /** @var Teh $teh */", "?> teh html <?php", "# teh", "<?php"],
+        "toml" => &["# teh", "[teh] # wrold", "#"],
+        "cmake" => &["#[[ teh bracket comment ]]", "#[=[ teh ]=]", "# teh"],
+        "csharp" => &["/// <summary>Teh summary.</summary>", "#region teh", "// teh", "/// <param name=\"teh\">wrold</param>"],
+        "swift" | "dart" => &["/// - Parameter teh: wrold", "// MARK: - teh", "/** teh */", "///"],
+        "nix" => &["# teh", "/* teh */", "/**\n  teh\n*/"],
+        _ => &["# teh", "// teh"],
+    };
+    opts.push((2, sel_str(specials).boxed()));
     proptest::strategy::Union::new_weighted(opts).boxed()
 }
 
